@@ -306,7 +306,7 @@ func tameValue(s PShape) PValue {
 		return PValue{JSON: []interface{}{jsonNumber("1"), jsonNumber("2")}, K: "arr", Xs: []string{"1", "2"}, Classes: []string{"num"}}
 	case "obj":
 		return PValue{JSON: J{"a": "abc", "b": "z"}, K: "obj", Keys: []string{"a", "b"}, Vals: []string{"abc", "z"}, Classes: []string{"alpha"}}
-	case "int", "int32", "int64":
+	case "int", "int32", "int64", "uint16", "int8":
 		return PValue{JSON: jsonNumber("1"), K: "prim", S: "1", Classes: []string{"num"}}
 	case "float", "double":
 		return PValue{JSON: jsonNumber("1.5"), K: "prim", S: "1.5", Classes: []string{"num"}}
